@@ -156,12 +156,14 @@ class C20(Check):
         naddr = k.choice([1, 2, 4, 6, 6, 9, 10, 10])
         pool = ADDRS[:naddr]
         nrec = 6
+        churn_at = []
         if k.random() < 0.01:
             # scale runs: hundreds of records (what a long-running server accumulates) and a history long enough to create and revisit them
             big = k.choice([140, 300])
             pool = pool + [[f"10.7.{i // 250}.{i % 250 + 1}", 50000 + (i % 3) * 2] for i in range(big)]
             n = k.choice([400, 700])
             nrec = big + 10
+            churn_at = [n // 10, n // 2]
         weights = {o: k.choice([0, 1, 2, 4]) for o in
                    ["match_incoming", "save", "patch", "attr_set", "attr_get", "delete_attr", "match_attr", "match_ip", "match_uuid",
                     "held_patch", "held_attr", "len_all"]}
@@ -195,6 +197,16 @@ class C20(Check):
                 op["rec"] = w.randrange(nrec)
                 op["unknown"] = w.random() < 0.1
             ops.append(op)
+        for pos in churn_at:  # scale runs: hundreds of records are created AFTER short-lived ones were collected
+            ops.insert(pos, {"op": "churn", "n": k.choice([400, 3000]), "client": 0})
+        if k.random() < 0.05:
+            # object churn elsewhere in the process (a fault of the environment, not an operation on this storage): another, short-lived storage
+            # creates records with dynamic attributes and is dropped and collected; plain Repeater objects come and go.  Usually tens to
+            # thousands of objects, rarely more than a 14- or 16-bit counter holds
+            for _ in range(k.choice([1, 2, 3])):
+                # ... or just short of a power of two, so that the records created next on this storage straddle a 14/15/16-bit counter wrap
+                cn = k.choice([10, 300, 300, 3000, (1 << 14) - k.randrange(12), (1 << 14) - k.randrange(12), (1 << 15) - k.randrange(12)]) if k.random() < 0.9 else (1 << 16) - k.randrange(12)
+                ops.insert(w.randrange(len(ops) + 1), {"op": "churn", "n": cn, "client": 0})
         case = {"knobs": {"clients": nclients, "uuid_seed": k.getrandbits(32)}, "ops": ops}
         if k.random() < 0.08:
             from checks import c19
@@ -288,7 +300,19 @@ class C20(Check):
             before = [(m["id"], snap_model(m)) for m in model]
             raised = None
             try:
-                if o == "match_incoming":
+                if o == "churn":
+                    import gc
+
+                    scratch = RepeaterStorage()
+                    for j in range(min(op["n"], 400)):
+                        scratch.match_incoming((f"172.16.{j // 250}.{j % 250 + 1}", 50000), auto_create=True, patch={"k1": j, "callsign": f"X{j}", "k2": "churn"})
+                    for j in range(max(0, op["n"] - 400)):
+                        rmod.Repeater()
+                    del scratch
+                    gc.collect()
+                    res.fault("object_churn", op["n"])
+                    site = "churn"
+                elif o == "match_incoming":
                     addr = addr_of(op["addr"])
                     p = real_patch(op["patch"]) if op.get("patch") is not None else None
                     m = mfind(lambda x: x["s"]["address_in"] == addr)
